@@ -39,8 +39,13 @@ def register(E):
         from pyvc.models2 import EXT_CONSTS
         EXT_CONSTS[modfile] = '/lib/%s.py' % modfile.split('.')[0]
 
+    def not_text(o):
+        # "not text at all": an object that is neither str nor bytes (those have their own cases)
+        C = E.classes
+        return z3.And(z3.Not(issub(cls_of(o), C.const('builtins.str'))), z3.Not(issub(cls_of(o), C.const('builtins.bytes'))))
+
     tb_cases = [('text', {'traceback_string': TStr}), ('bytes', {'traceback_string': TBytes}),
-                ('None', {'traceback_string': TConst(NONE)}), ('other object', {'traceback_string': TObj()})]
+                ('None', {'traceback_string': TConst(NONE)}), ('other object', {'traceback_string': TObj(inv=not_text)})]
     files_cases = [('no files', TConst(NONE)), ('files', TList(TStr))]
     cases = []
     for tl, tp in tb_cases:
@@ -62,6 +67,26 @@ def register(E):
             return VBool(False)
         return VBool(I.identical(ctx, h.conc[k], value))
 
+    @E.spec('RESOURCE_IS_TEXT')
+    def RESOURCE_IS_TEXT(I, ctx, key, value):
+        """the resource is that very value, or -- for text -- its sanitised form (A-enc: the identity on encodable text)"""
+        ev = [e for e in ctx.trace if e[0] == 'Application' and len(e[1]) >= 2]
+        if not ev:
+            return VBool(False)
+        res = I.resolve(ctx, ev[-1][1][1])
+        h = ctx.heap[res.rid]
+        k = key.const()
+        if h.conc is None or k not in h.conc:
+            return VBool(False)
+        got = I.resolve(ctx, h.conc[k])
+        value = I.resolve(ctx, value)
+        if isinstance(value, VStr):
+            if not isinstance(got, VStr):
+                return VBool(False)
+            san = Z.func('str_sanitised:backslashreplace', Z.Str, Z.Str)(value.z)
+            return VBool(z3.Or(got.z == value.z, got.z == san))
+        return VBool(I.identical(ctx, got, value))
+
     @E.spec('ROUTES_COVER_ALL_PATHS')
     def ROUTES_COVER(I, ctx):
         ev = [e for e in ctx.trace if e[0] == 'Application' and len(e[1]) >= 2]
@@ -79,7 +104,8 @@ def register(E):
         'clastic.flaw.create_app',
         cases=cases,
         loops={},
-        ensures=['RESOURCE_IS("tb_str", traceback_string)', 'RESOURCE_IS("all_mon_files", monitored_files)',
+        # the text is shown as given; unencodable characters (lone surrogates) escaped -- the identity on encodable text
+        ensures=['RESOURCE_IS_TEXT("tb_str", traceback_string)', 'RESOURCE_IS("all_mon_files", monitored_files)',
                  'ROUTES_COVER_ALL_PATHS()'],
         returns=TObj('App'), prop=['C20']))
 
